@@ -6,6 +6,8 @@ package loadaware
 // through GetPodsAssignedToNodeFunc, and a recording framework.Evictor whose Filter follows the per-pod flag; it then
 // runs the REAL Balance for several successive rounds per segment (the anomaly detectors live inside the plugin) and logs
 //   reset {cfg, names}   round {nodes, pods}   evict {pod, ok}*   end {obs: calls, pods}
+// A configuration holds one or SEVERAL node pools (label selectors over the nodes: overlapping, disjoint, none), each with
+// its own thresholds / anomaly settings; all of them are processed by the one real Balance call of a round.
 // There is no oracle here: specs/Rebalance/RebalanceTrace.tla recomputes the usage / threshold table from the logged
 // inputs and judges every evict event. The generators keep a shadow of the inputs only to steer generation
 // (boundary usages, float-insensitive thresholds), never to judge.
@@ -41,19 +43,48 @@ import (
 var c18Res = []string{"cpu", "mem"}
 
 // thresholds are carried in hundredths of a percent (2000 = 20%, 1003 = 10.03%)
+type c18Sel struct {
+	Nil    bool     `json:"nil"`    // no NodeSelector at all
+	Labels []string `json:"labels"` // otherwise MatchLabels {l: "1"} for every listed label (none listed: the empty selector)
+}
+
+type c18Pool struct {
+	Sel     c18Sel           `json:"sel"`
+	Dev     bool             `json:"dev"`
+	Low     map[string]int64 `json:"low"`
+	High    map[string]int64 `json:"high"`
+	PLow    map[string]int64 `json:"plow"`
+	PHigh   map[string]int64 `json:"phigh"`
+	Anomaly int              `json:"anomaly"` // 0 = no AnomalyCondition
+	Norm    int              `json:"norm"`
+}
+
 type c18Cfg struct {
-	Dev      bool             `json:"dev"`
-	Low      map[string]int64 `json:"low"`
-	High     map[string]int64 `json:"high"`
-	PLow     map[string]int64 `json:"plow"`
-	PHigh    map[string]int64 `json:"phigh"`
-	Anomaly  int              `json:"anomaly"` // 0 = no AnomalyCondition
-	Norm     int              `json:"norm"`
-	NumNodes int              `json:"numNodes"`
-	NodeFit  bool             `json:"nodeFit"`
+	NumNodes int       `json:"numNodes"`
+	NodeFit  bool      `json:"nodeFit"`
+	Pools    []c18Pool `json:"pools"`
+}
+
+// scripts recorded before the check drove several pools carry the settings of their single pool at the top level
+func (c *c18Cfg) UnmarshalJSON(b []byte) error {
+	type plain c18Cfg
+	var w struct {
+		plain
+		c18Pool
+	}
+	if err := json.Unmarshal(b, &w); err != nil {
+		return err
+	}
+	*c = c18Cfg(w.plain)
+	if len(c.Pools) == 0 {
+		w.c18Pool.Sel = c18Sel{Nil: true}
+		c.Pools = []c18Pool{w.c18Pool}
+	}
+	return nil
 }
 
 type c18Node struct {
+	Labels  []string         `json:"labels"`
 	Cap     map[string]int64 `json:"cap"`
 	Fresh   bool             `json:"fresh"`
 	SK      int              `json:"sk"` // how the metric is unusable when !fresh: 1 old timestamp, 2 no NodeMetric object, 3 nil Status.NodeMetric, 4 nil UpdateTime
@@ -91,6 +122,7 @@ type c18Round struct {
 
 type c18Harness struct {
 	pl      *LowNodeLoad
+	segNo   int
 	indexer cache.Indexer
 	rec     *vu.Recorder
 	cur     *c18Round
@@ -103,6 +135,11 @@ func (e *c18Evictor) Filter(pod *corev1.Pod) bool {
 	p := e.h.cur.in.Pods[pod.Name]
 	if !p.Pass {
 		return false
+	}
+	for _, g := range e.h.cur.gone { // already being evicted / migrated (it stays listed on its node for the rest of the round)
+		if g == pod.Name {
+			return false
+		}
 	}
 	if p.Wl != "" { // a per-workload limit on migrating pods: a group that already lost a member this round is closed
 		for _, g := range e.h.cur.gone {
@@ -121,7 +158,7 @@ func (e *c18Evictor) Evict(ctx context.Context, pod *corev1.Pod, opts framework.
 	if ok {
 		e.h.cur.gone = append(e.h.cur.gone, pod.Name)
 	}
-	e.h.rec.Emit(vu.Ev{"op": "evict", "pod": pod.Name, "ok": ok, "from": pod.Spec.NodeName})
+	e.h.rec.Emit(vu.Ev{"op": "evict", "pod": pod.Name, "ok": ok, "from": e.h.cur.in.Pods[pod.Name].Node})
 	return ok
 }
 
@@ -164,27 +201,37 @@ func c18ResName(k string) corev1.ResourceName {
 
 func c18Args(cfg c18Cfg) *deschedulerconfig.LowNodeLoadArgs {
 	expire := int64(180)
-	pool := deschedulerconfig.LowNodeLoadNodePool{
-		Name:                   "pool",
-		UseDeviationThresholds: cfg.Dev,
-		LowThresholds:          c18Thresholds(cfg.Low),
-		HighThresholds:         c18Thresholds(cfg.High),
-		ProdLowThresholds:      c18Thresholds(cfg.PLow),
-		ProdHighThresholds:     c18Thresholds(cfg.PHigh),
-		ResourceWeights:        map[corev1.ResourceName]int64{corev1.ResourceCPU: 1, corev1.ResourceMemory: 1},
-	}
-	if cfg.Anomaly > 0 {
-		pool.AnomalyCondition = &deschedulerconfig.LoadAnomalyCondition{
-			Timeout:                  metav1.Duration{Duration: time.Hour}, // far away: no wall-clock dependence
-			ConsecutiveAbnormalities: uint32(cfg.Anomaly),
-			ConsecutiveNormalities:   uint32(cfg.Norm),
+	var pools []deschedulerconfig.LowNodeLoadNodePool
+	for i, pc := range cfg.Pools {
+		pool := deschedulerconfig.LowNodeLoadNodePool{
+			Name:                   fmt.Sprintf("pool%d", i+1),
+			UseDeviationThresholds: pc.Dev,
+			LowThresholds:          c18Thresholds(pc.Low),
+			HighThresholds:         c18Thresholds(pc.High),
+			ProdLowThresholds:      c18Thresholds(pc.PLow),
+			ProdHighThresholds:     c18Thresholds(pc.PHigh),
+			ResourceWeights:        map[corev1.ResourceName]int64{corev1.ResourceCPU: 1, corev1.ResourceMemory: 1},
 		}
+		if !pc.Sel.Nil {
+			pool.NodeSelector = &metav1.LabelSelector{MatchLabels: map[string]string{}}
+			for _, l := range pc.Sel.Labels {
+				pool.NodeSelector.MatchLabels[l] = "1"
+			}
+		}
+		if pc.Anomaly > 0 {
+			pool.AnomalyCondition = &deschedulerconfig.LoadAnomalyCondition{
+				Timeout:                  metav1.Duration{Duration: time.Hour}, // far away: no wall-clock dependence
+				ConsecutiveAbnormalities: uint32(pc.Anomaly),
+				ConsecutiveNormalities:   uint32(pc.Norm),
+			}
+		}
+		pools = append(pools, pool)
 	}
 	return &deschedulerconfig.LowNodeLoadArgs{
 		NumberOfNodes:               int32(cfg.NumNodes),
 		NodeMetricExpirationSeconds: &expire,
 		NodeFit:                     cfg.NodeFit,
-		NodePools:                   []deschedulerconfig.LowNodeLoadNodePool{pool},
+		NodePools:                   pools,
 		DetectorCacheTimeout:        &metav1.Duration{Duration: time.Hour},
 	}
 }
@@ -193,7 +240,7 @@ func c18NewHarness(t *testing.T, rec *vu.Recorder) *c18Harness {
 	h := &c18Harness{rec: rec, stats: map[string]int{}}
 	hd := &c18Handle{h: h}
 	hd.ev = &c18Evictor{h: h}
-	boot := c18Cfg{Low: map[string]int64{"cpu": 2000}, High: map[string]int64{"cpu": 8000}}
+	boot := c18Cfg{Pools: []c18Pool{{Sel: c18Sel{Nil: true}, Low: map[string]int64{"cpu": 2000}, High: map[string]int64{"cpu": 8000}}}}
 	p, err := NewLowNodeLoad(context.TODO(), c18Args(boot), &fakeFrameworkHandle{Handle: hd, Interface: koordfake.NewSimpleClientset()})
 	if err != nil {
 		t.Fatalf("NewLowNodeLoad: %v", err)
@@ -205,7 +252,10 @@ func c18NewHarness(t *testing.T, rec *vu.Recorder) *c18Harness {
 	return h
 }
 
-// one segment = one plugin life: fresh args (validated by the real validator) and empty detector caches
+// one segment = one plugin life: fresh args (validated by the real validator) and no anomaly detector left over from the
+// previous segment.  The plugin keys its detectors by node name; wherever it keeps them, none survives into this segment
+// because the node OBJECTS of every segment carry names of their own (script name + segment number, see realName); the
+// trace keeps the script names.
 func (h *c18Harness) startSegment(cfg c18Cfg, names []string) {
 	args := c18Args(cfg)
 	if err := validation.ValidateLowLoadUtilizationArgs(nil, args); err != nil {
@@ -214,15 +264,26 @@ func (h *c18Harness) startSegment(cfg c18Cfg, names []string) {
 	h.pl.args = args
 	h.pl.nodeAnomalyDetectors.Flush()
 	h.pl.prodAnomalyDetectors.Flush()
+	h.segNo++
 	h.rec.Reset(vu.Ev{"cfg": cfg, "names": names})
 	h.stats["segments"]++
 }
+
+func (h *c18Harness) realName(node string) string { return fmt.Sprintf("%s-s%d", node, h.segNo) }
 
 func c18Quantities(m map[string]int64) corev1.ResourceList {
 	return corev1.ResourceList{
 		corev1.ResourceCPU:    *resource.NewMilliQuantity(m["cpu"], resource.DecimalSI),
 		corev1.ResourceMemory: *resource.NewQuantity(m["mem"], resource.BinarySI),
 	}
+}
+
+func c18LabelMap(ls []string) map[string]string {
+	m := map[string]string{}
+	for _, l := range ls {
+		m[l] = "1"
+	}
+	return m
 }
 
 func c18SortedKeys[V any](m map[string]V) []string {
@@ -250,10 +311,10 @@ func (h *c18Harness) runRound(in c18Ev) []string {
 		}
 		pod := &corev1.Pod{
 			ObjectMeta: metav1.ObjectMeta{Namespace: "default", Name: pn, Labels: map[string]string{extension.LabelPodPriorityClass: prio}},
-			Spec:       corev1.PodSpec{NodeName: p.Node, Containers: []corev1.Container{{Name: "c"}}},
+			Spec:       corev1.PodSpec{NodeName: h.realName(p.Node), Containers: []corev1.Container{{Name: "c"}}},
 			Status:     corev1.PodStatus{Phase: corev1.PodRunning},
 		}
-		r.byNode[p.Node] = append(r.byNode[p.Node], pod)
+		r.byNode[h.realName(p.Node)] = append(r.byNode[h.realName(p.Node)], pod)
 		if p.Metric {
 			perNode[p.Node] = append(perNode[p.Node], &slov1alpha1.PodMetricInfo{Namespace: "default", Name: pn,
 				PodUsage: slov1alpha1.ResourceMap{ResourceList: c18Quantities(p.Use)}})
@@ -264,11 +325,11 @@ func (h *c18Harness) runRound(in c18Ev) []string {
 		alloc := c18Quantities(n.Cap)
 		alloc[corev1.ResourcePods] = *resource.NewQuantity(110, resource.DecimalSI)
 		nodes = append(nodes, &corev1.Node{
-			ObjectMeta: metav1.ObjectMeta{Name: nn, Labels: map[string]string{}},
+			ObjectMeta: metav1.ObjectMeta{Name: h.realName(nn), Labels: c18LabelMap(n.Labels)},
 			Spec:       corev1.NodeSpec{Unschedulable: n.Unsched},
 			Status:     corev1.NodeStatus{Capacity: alloc.DeepCopy(), Allocatable: alloc},
 		})
-		nm := &slov1alpha1.NodeMetric{ObjectMeta: metav1.ObjectMeta{Name: nn}}
+		nm := &slov1alpha1.NodeMetric{ObjectMeta: metav1.ObjectMeta{Name: h.realName(nn)}}
 		nm.Status.UpdateTime = &metav1.Time{Time: now}
 		nm.Status.NodeMetric = &slov1alpha1.NodeMetricInfo{SystemUsage: slov1alpha1.ResourceMap{ResourceList: c18Quantities(n.Sys)}}
 		nm.Status.PodsMetric = perNode[nn]
@@ -299,8 +360,17 @@ func (h *c18Harness) runRound(in c18Ev) []string {
 	h.stats["evictCalls"] += r.calls
 	if r.calls > 0 {
 		h.stats["roundsWithEvictions"]++
-		if in.Cfg != nil && in.Cfg.Anomaly >= 2 {
-			h.stats["anomalyGatedRoundsWithEvictions"]++
+		if in.Cfg != nil {
+			gated := false
+			for _, pc := range in.Cfg.Pools {
+				gated = gated || pc.Anomaly >= 2
+			}
+			if gated {
+				h.stats["roundsWithEvictionsSomePoolAnomalyGated"]++
+			}
+			if len(in.Cfg.Pools) > 1 {
+				h.stats["multiPoolRoundsWithEvictions"]++
+			}
 		}
 	}
 	return r.gone
@@ -321,15 +391,33 @@ func (h *c18Harness) replay(script []c18Ev) {
 		if e.Pods == nil {
 			e.Pods = map[string]c18Pod{}
 		}
+		for nn, n := range e.Nodes {
+			if n.Labels == nil {
+				n.Labels = []string{}
+				e.Nodes[nn] = n
+			}
+		}
 		h.runRound(e)
 	}
 }
 
 func c18Norm(c c18Cfg) c18Cfg {
+	pools := make([]c18Pool, len(c.Pools))
+	for i, pc := range c.Pools {
+		pools[i] = c18NormPool(pc)
+	}
+	c.Pools = pools
+	return c
+}
+
+func c18NormPool(c c18Pool) c18Pool {
 	for _, m := range []*map[string]int64{&c.Low, &c.High, &c.PLow, &c.PHigh} {
 		if *m == nil {
 			*m = map[string]int64{}
 		}
+	}
+	if c.Sel.Labels == nil {
+		c.Sel.Labels = []string{}
 	}
 	if c.Norm == 0 {
 		c.Norm = 1
@@ -367,9 +455,9 @@ func c18PickAbs(rng *rand.Rand, lo, hi int64) int64 {
 
 var c18Devs = []int64{503, 1003, 1507, 2003, 3011}
 
-func c18RandomCfg(rng *rand.Rand) c18Cfg {
-	c := c18Norm(c18Cfg{})
-	c.Dev = rng.Intn(5) < 2
+func c18RandomPool(rng *rand.Rand, mayDev bool) c18Pool {
+	c := c18NormPool(c18Pool{})
+	c.Dev = mayDev && rng.Intn(5) < 2
 	withMem := rng.Intn(5) < 3
 	prodMode := rng.Intn(5) // 0,1: none; 2,3: cpu; 4: cpu+mem
 	set := func(r string) {
@@ -449,6 +537,44 @@ func c18RandomCfg(rng *rand.Rand) c18Cfg {
 		c.Anomaly = 3
 	}
 	c.Norm = 1 + rng.Intn(2)
+	return c
+}
+
+func c18Matches(sel c18Sel, labels []string) bool {
+	if sel.Nil {
+		return true
+	}
+	for _, l := range sel.Labels {
+		found := false
+		for _, x := range labels {
+			found = found || x == l
+		}
+		if !found {
+			return false
+		}
+	}
+	return true
+}
+
+func c18RandomSel(rng *rand.Rand) c18Sel {
+	switch k := rng.Intn(20); {
+	case k < 3:
+		return c18Sel{Nil: true, Labels: []string{}}
+	case k < 5:
+		return c18Sel{Labels: []string{}} // the empty selector: every node
+	case k < 11:
+		return c18Sel{Labels: []string{"a"}}
+	case k < 17:
+		return c18Sel{Labels: []string{"b"}}
+	default:
+		return c18Sel{Labels: []string{"a", "b"}}
+	}
+}
+
+// the pools of one configuration over the given node labels.  A pool with deviation thresholds never shares a node with
+// an earlier pool (stated assumption: its average is then over exactly the nodes it selects).
+func c18RandomCfg(rng *rand.Rand, names []string, labels map[string][]string) c18Cfg {
+	c := c18Cfg{}
 	switch k := rng.Intn(20); {
 	case k < 15:
 		c.NumNodes = 0
@@ -458,12 +584,58 @@ func c18RandomCfg(rng *rand.Rand) c18Cfg {
 		c.NumNodes = 2
 	}
 	c.NodeFit = rng.Intn(2) == 0
+	np := 1
+	switch k := rng.Intn(20); {
+	case k < 9:
+		np = 1
+	case k < 17:
+		np = 2
+	default:
+		np = 3
+	}
+	same := rng.Intn(2) == 0 // every pool with the thresholds of the first one (only the selectors differ)
+	seen := map[string]bool{}
+	for i := 0; i < np; i++ {
+		var sel c18Sel
+		if np == 1 {
+			sel = c18Sel{Nil: true, Labels: []string{}}
+			if rng.Intn(5) == 0 {
+				sel = c18Sel{Labels: []string{"a"}}
+			}
+		} else {
+			sel = c18RandomSel(rng)
+		}
+		overlaps := false
+		for _, n := range names {
+			if c18Matches(sel, labels[n]) && seen[n] {
+				overlaps = true
+			}
+		}
+		var pc c18Pool
+		if i > 0 && same && !(c.Pools[0].Dev && overlaps) {
+			pc = c.Pools[0]
+			pc.Low, pc.High, pc.PLow, pc.PHigh = c18Copy(pc.Low), c18Copy(pc.High), c18Copy(pc.PLow), c18Copy(pc.PHigh)
+			if rng.Intn(3) == 0 {
+				pc.Anomaly = []int{0, 1, 2, 3}[rng.Intn(4)]
+			}
+		} else {
+			pc = c18RandomPool(rng, !overlaps)
+		}
+		pc.Sel = sel
+		c.Pools = append(c.Pools, pc)
+		for _, n := range names {
+			if c18Matches(sel, labels[n]) {
+				seen[n] = true
+			}
+		}
+	}
 	return c
 }
 
 type c18World struct {
 	cfg     c18Cfg
 	names   []string
+	labels  map[string][]string
 	caps    map[string]map[string]int64
 	unsched map[string]bool
 	sys     map[string]map[string]int64
@@ -509,14 +681,25 @@ func (w *c18World) redraw(rng *rand.Rand, node string) {
 		mine = append(mine, pn)
 	}
 	w.sys[node] = map[string]int64{}
+	// steer towards the thresholds of one of the pools that select this node
+	var steer *c18Pool
+	var sel []int
+	for i := range w.cfg.Pools {
+		if c18Matches(w.cfg.Pools[i].Sel, w.labels[node]) {
+			sel = append(sel, i)
+		}
+	}
+	if len(sel) > 0 {
+		steer = &w.cfg.Pools[sel[rng.Intn(len(sel))]]
+	}
 	for _, r := range c18Res {
 		cp := w.caps[node][r]
 		pods := w.podSum(node, r, false)
 		var target int64
 		lowQ, highQ := cp*20/100, cp*80/100
-		if !w.cfg.Dev {
-			if v, ok := w.cfg.Low[r]; ok {
-				lowQ, highQ = v*cp/10000, w.cfg.High[r]*cp/10000
+		if steer != nil && !steer.Dev {
+			if v, ok := steer.Low[r]; ok {
+				lowQ, highQ = v*cp/10000, steer.High[r]*cp/10000
 			}
 		}
 		band := rng.Intn(10)
@@ -561,16 +744,26 @@ func (w *c18World) redraw(rng *rand.Rand, node string) {
 }
 
 // exact rational value of every deviation threshold; robust iff its floor cannot be changed by float rounding noise
+// (for every pool with deviation thresholds, over the measured nodes it selects)
 func (w *c18World) devRobust(fresh map[string]bool) bool {
-	if !w.cfg.Dev {
-		return true
-	}
-	var F []string
-	for _, n := range w.names {
-		if fresh[n] {
-			F = append(F, n)
+	for _, pc := range w.cfg.Pools {
+		if !pc.Dev {
+			continue
+		}
+		var F []string
+		for _, n := range w.names {
+			if fresh[n] && c18Matches(pc.Sel, w.labels[n]) {
+				F = append(F, n)
+			}
+		}
+		if !w.devRobustPool(pc, F) {
+			return false
 		}
 	}
+	return true
+}
+
+func (w *c18World) devRobustPool(pc c18Pool, F []string) bool {
 	if len(F) == 0 {
 		return true
 	}
@@ -578,9 +771,9 @@ func (w *c18World) devRobust(fresh map[string]bool) bool {
 	for _, r := range c18Res {
 		L := int64(2000)
 		for _, prod := range []bool{false, true} {
-			lowm, highm := w.cfg.Low, w.cfg.High
+			lowm, highm := pc.Low, pc.High
 			if prod {
-				lowm, highm = w.cfg.PLow, w.cfg.PHigh
+				lowm, highm = pc.PLow, pc.PHigh
 			}
 			if v, ok := lowm[r]; !ok || v == 0 {
 				continue
@@ -638,7 +831,7 @@ func (w *c18World) input(rng *rand.Rand) c18Ev {
 	}
 	e := c18Ev{Op: "round", Cfg: &w.cfg, Nodes: map[string]c18Node{}, Pods: map[string]c18Pod{}}
 	for _, n := range w.names {
-		e.Nodes[n] = c18Node{Cap: c18Copy(w.caps[n]), Fresh: fresh[n], SK: sk[n], Unsched: w.unsched[n], Sys: c18Copy(w.sys[n])}
+		e.Nodes[n] = c18Node{Labels: append([]string{}, w.labels[n]...), Cap: c18Copy(w.caps[n]), Fresh: fresh[n], SK: sk[n], Unsched: w.unsched[n], Sys: c18Copy(w.sys[n])}
 	}
 	for pn, p := range w.pods {
 		p.Use = c18Copy(p.Use)
@@ -656,16 +849,27 @@ func c18Copy(m map[string]int64) map[string]int64 {
 }
 
 func c18RandomSegment(h *c18Harness, rng *rand.Rand, rounds int) {
-	cfg := c18RandomCfg(rng)
 	n := 2 + rng.Intn(3)
-	w := &c18World{cfg: cfg, caps: map[string]map[string]int64{}, unsched: map[string]bool{}, sys: map[string]map[string]int64{}, pods: map[string]c18Pod{}}
+	w := &c18World{labels: map[string][]string{}, caps: map[string]map[string]int64{}, unsched: map[string]bool{}, sys: map[string]map[string]int64{}, pods: map[string]c18Pod{}}
 	for i := 1; i <= n; i++ {
 		nn := fmt.Sprintf("n%d", i)
 		w.names = append(w.names, nn)
 		w.caps[nn] = map[string]int64{"cpu": c18Caps[rng.Intn(2)], "mem": c18Caps[rng.Intn(2)]}
 		w.unsched[nn] = rng.Intn(10) == 0
+		w.labels[nn] = []string{}
+		if rng.Intn(10) < 7 {
+			w.labels[nn] = append(w.labels[nn], "a")
+		}
+		if rng.Intn(10) < 6 {
+			w.labels[nn] = append(w.labels[nn], "b")
+		}
 	}
+	w.cfg = c18RandomCfg(rng, w.names, w.labels)
+	cfg := w.cfg
 	h.startSegment(cfg, w.names)
+	if len(cfg.Pools) > 1 {
+		h.stats["multiPoolSegments"]++
+	}
 	sticky := 4 + rng.Intn(5) // out of 10: how often a node keeps its content from one round to the next
 	for r := 0; r < rounds; r++ {
 		for _, nn := range w.names {
@@ -698,20 +902,21 @@ func c18Enumerated(h *c18Harness) {
 					continue
 				}
 				for _, an := range []int{0, 2} {
-					cfg := c18Norm(c18Cfg{Dev: dev, Anomaly: an, Norm: 1})
+					pc := c18NormPool(c18Pool{Sel: c18Sel{Nil: true}, Dev: dev, Anomaly: an, Norm: 1})
 					if dev {
-						cfg.Low, cfg.High = map[string]int64{"cpu": 1003, "mem": 1003}, map[string]int64{"cpu": 1003, "mem": 1003}
+						pc.Low, pc.High = map[string]int64{"cpu": 1003, "mem": 1003}, map[string]int64{"cpu": 1003, "mem": 1003}
 						if prod {
-							cfg.PLow, cfg.PHigh = map[string]int64{"cpu": 503}, map[string]int64{"cpu": 503}
+							pc.PLow, pc.PHigh = map[string]int64{"cpu": 503}, map[string]int64{"cpu": 503}
 						}
 					} else {
-						cfg.Low, cfg.High = map[string]int64{"cpu": 2000, "mem": 2000}, map[string]int64{"cpu": 8000, "mem": 8000}
+						pc.Low, pc.High = map[string]int64{"cpu": 2000, "mem": 2000}, map[string]int64{"cpu": 8000, "mem": 8000}
 						if prod {
-							cfg.PLow, cfg.PHigh = map[string]int64{"cpu": 1000}, map[string]int64{"cpu": 1500}
+							pc.PLow, pc.PHigh = map[string]int64{"cpu": 1000}, map[string]int64{"cpu": 1500}
 						}
 					}
+					cfg := c18Cfg{Pools: []c18Pool{pc}}
 					for code := 0; code < 81; code++ {
-						w := &c18World{cfg: cfg, names: []string{"n1", "n2", "n3"},
+						w := &c18World{cfg: cfg, names: []string{"n1", "n2", "n3"}, labels: map[string][]string{},
 							caps:    map[string]map[string]int64{"n1": {"cpu": 1000, "mem": 1000}, "n2": {"cpu": 2000, "mem": 2000}, "n3": {"cpu": 1000, "mem": 1000}},
 							unsched: map[string]bool{}, sys: map[string]map[string]int64{}, pods: map[string]c18Pod{}}
 						h.startSegment(cfg, w.names)
@@ -743,7 +948,7 @@ func c18Enumerated(h *c18Harness) {
 							}
 							e := c18Ev{Op: "round", Cfg: &w.cfg, Nodes: map[string]c18Node{}, Pods: map[string]c18Pod{}}
 							for _, n := range w.names {
-								e.Nodes[n] = c18Node{Cap: c18Copy(w.caps[n]), Fresh: true, Sys: c18Copy(w.sys[n])}
+								e.Nodes[n] = c18Node{Labels: []string{}, Cap: c18Copy(w.caps[n]), Fresh: true, Sys: c18Copy(w.sys[n])}
 							}
 							for pn, p := range w.pods {
 								e.Pods[pn] = p
@@ -752,6 +957,120 @@ func c18Enumerated(h *c18Harness) {
 						}
 					}
 				}
+			}
+		}
+	}
+}
+
+// enumerated configurations with TWO pools over 4 nodes (absolute thresholds 20/80, prod 10/15, same for both pools):
+//
+//	n1 [a b] 1000  the node whose level varies      n2 [a b] 2000  idle      n3 [b] 1000  idle      n4 [a] 1000  at 50 percent
+//	pool 1 selects "a";  pool 2 selects "b" / has no selector / has the empty selector / selects "a" again
+//	family C  every 3-round sequence of n1's usage level in {10, 50, 95} percent (six pods of 50m: three evictions needed)
+//	family D  n1's node usage held at 50 percent, every 3-round sequence of its PROD usage level {0, 12, 30} percent
+//
+// with anomaly none / 2 in both pools, and anomaly (none, 2) / (2, none).  (4 x 4 x 2 x 27 segments)
+func c18EnumeratedPools(h *c18Harness) {
+	levels := []int64{10, 50, 90}
+	sels := []c18Sel{{Labels: []string{"b"}}, {Nil: true, Labels: []string{}}, {Labels: []string{}}, {Labels: []string{"a"}}}
+	for _, sel2 := range sels {
+		for _, an := range [][2]int{{0, 0}, {2, 2}, {0, 2}, {2, 0}} {
+			for _, fam := range []string{"C", "D"} {
+				mk := func(sel c18Sel, a int) c18Pool {
+					pc := c18NormPool(c18Pool{Sel: sel, Anomaly: a, Norm: 1})
+					pc.Low, pc.High = map[string]int64{"cpu": 2000, "mem": 2000}, map[string]int64{"cpu": 8000, "mem": 8000}
+					pc.PLow, pc.PHigh = map[string]int64{"cpu": 1000}, map[string]int64{"cpu": 1500}
+					return pc
+				}
+				cfg := c18Cfg{Pools: []c18Pool{mk(c18Sel{Labels: []string{"a"}}, an[0]), mk(sel2, an[1])}}
+				for code := 0; code < 27; code++ {
+					w := &c18World{cfg: cfg, names: []string{"n1", "n2", "n3", "n4"},
+						labels:  map[string][]string{"n1": {"a", "b"}, "n2": {"a", "b"}, "n3": {"b"}, "n4": {"a"}},
+						caps:    map[string]map[string]int64{"n1": {"cpu": 1000, "mem": 1000}, "n2": {"cpu": 2000, "mem": 2000}, "n3": {"cpu": 1000, "mem": 1000}, "n4": {"cpu": 1000, "mem": 1000}},
+						unsched: map[string]bool{}, sys: map[string]map[string]int64{}, pods: map[string]c18Pod{}}
+					h.startSegment(cfg, w.names)
+					h.stats["multiPoolSegments"]++
+					c := code
+					for r := 0; r < 3; r++ {
+						lv := levels[c%3]
+						c /= 3
+						w.pods = map[string]c18Pod{
+							"q2": {Node: "n2", Use: map[string]int64{"cpu": 100, "mem": 100}, Prod: false, Pass: true, Metric: true, EOK: true},
+							"q4": {Node: "n4", Use: map[string]int64{"cpu": 100, "mem": 0}, Prod: false, Pass: true, Metric: true, EOK: true},
+						}
+						w.sys = map[string]map[string]int64{"n2": {"cpu": 100, "mem": 100}, "n3": {"cpu": 100, "mem": 100}, "n4": {"cpu": 400, "mem": 300}}
+						switch {
+						case fam == "C" && lv == 10:
+							w.sys["n1"] = map[string]int64{"cpu": 100, "mem": 100}
+						case fam == "C":
+							for i := 1; i <= 6; i++ {
+								w.pods[fmt.Sprintf("p%d", i)] = c18Pod{Node: "n1", Use: map[string]int64{"cpu": 50, "mem": 50}, Prod: false, Pass: true, Metric: true, EOK: true}
+							}
+							w.sys["n1"] = map[string]int64{"cpu": lv*10 - 300 + 50*(lv/90), "mem": 0} // 90: 950m, three evictions bring it back to the 800m threshold
+						default: // family D: prod pods of 60m; 10 -> none prod, 50 -> two prod (120m), 90 -> five prod (300m)
+							k := map[int64]int{10: 0, 50: 2, 90: 5}[lv]
+							for i := 1; i <= 6; i++ {
+								w.pods[fmt.Sprintf("p%d", i)] = c18Pod{Node: "n1", Use: map[string]int64{"cpu": 60, "mem": 50}, Prod: i <= k, Pass: true, Metric: true, EOK: true}
+							}
+							w.sys["n1"] = map[string]int64{"cpu": 140, "mem": 100}
+						}
+						e := c18Ev{Op: "round", Cfg: &w.cfg, Nodes: map[string]c18Node{}, Pods: map[string]c18Pod{}}
+						for _, n := range w.names {
+							e.Nodes[n] = c18Node{Labels: append([]string{}, w.labels[n]...), Cap: c18Copy(w.caps[n]), Fresh: true, Sys: c18Copy(w.sys[n])}
+						}
+						for pn, p := range w.pods {
+							e.Pods[pn] = p
+						}
+						h.runRound(e)
+					}
+				}
+			}
+		}
+	}
+}
+
+// enumerated configurations with two pools of DIFFERENT thresholds over 3 nodes: pool 1 selects "a" (20/80, prod 10/15), pool 2
+// selects "b" and is stricter (cpu 20/50); n1 [a b] 1000 varies, n2 [a b] 2000 and n3 [b] 1000 are idle.
+//
+//	family E  every 4-round sequence of n1's state in {30 percent, 60 percent (over pool 2's threshold only), 90 percent,
+//	          40 percent with 30 percent prod usage (prod-overloaded in pool 1, under pool 2's threshold)}
+//
+// with anomaly (none, 2) and (2, 2): the stricter pool's run of abnormal rounds must end in a round in which pool 1 balances
+// the node and pool 2 never measures it.  (2 x 256 segments)
+func c18EnumeratedStricterPool(h *c18Harness) {
+	for _, an := range [][2]int{{0, 2}, {2, 2}} {
+		p1 := c18NormPool(c18Pool{Sel: c18Sel{Labels: []string{"a"}}, Anomaly: an[0], Norm: 1})
+		p1.Low, p1.High = map[string]int64{"cpu": 2000, "mem": 2000}, map[string]int64{"cpu": 8000, "mem": 8000}
+		p1.PLow, p1.PHigh = map[string]int64{"cpu": 1000}, map[string]int64{"cpu": 1500}
+		p2 := c18NormPool(c18Pool{Sel: c18Sel{Labels: []string{"b"}}, Anomaly: an[1], Norm: 1})
+		p2.Low, p2.High = map[string]int64{"cpu": 2000, "mem": 2000}, map[string]int64{"cpu": 5000, "mem": 8000}
+		p2.PLow, p2.PHigh = map[string]int64{"cpu": 1000}, map[string]int64{"cpu": 1500}
+		cfg := c18Cfg{Pools: []c18Pool{p1, p2}}
+		for code := 0; code < 256; code++ {
+			w := &c18World{cfg: cfg, names: []string{"n1", "n2", "n3"},
+				labels:  map[string][]string{"n1": {"a", "b"}, "n2": {"a", "b"}, "n3": {"b"}},
+				caps:    map[string]map[string]int64{"n1": {"cpu": 1000, "mem": 1000}, "n2": {"cpu": 2000, "mem": 2000}, "n3": {"cpu": 1000, "mem": 1000}},
+				unsched: map[string]bool{}, sys: map[string]map[string]int64{}, pods: map[string]c18Pod{}}
+			h.startSegment(cfg, w.names)
+			h.stats["multiPoolSegments"]++
+			c := code
+			for r := 0; r < 4; r++ {
+				st := c % 4
+				c /= 4
+				w.pods = map[string]c18Pod{"q2": {Node: "n2", Use: map[string]int64{"cpu": 100, "mem": 100}, Prod: false, Pass: true, Metric: true, EOK: true}}
+				for i := 1; i <= 6; i++ {
+					w.pods[fmt.Sprintf("p%d", i)] = c18Pod{Node: "n1", Use: map[string]int64{"cpu": 50, "mem": 20}, Prod: st == 3, Pass: true, Metric: true, EOK: true}
+				}
+				w.sys = map[string]map[string]int64{"n2": {"cpu": 100, "mem": 100}, "n3": {"cpu": 100, "mem": 100},
+					"n1": {"cpu": []int64{0, 300, 600, 100}[st], "mem": 100}}
+				e := c18Ev{Op: "round", Cfg: &w.cfg, Nodes: map[string]c18Node{}, Pods: map[string]c18Pod{}}
+				for _, n := range w.names {
+					e.Nodes[n] = c18Node{Labels: append([]string{}, w.labels[n]...), Cap: c18Copy(w.caps[n]), Fresh: true, Sys: c18Copy(w.sys[n])}
+				}
+				for pn, p := range w.pods {
+					e.Pods[pn] = p
+				}
+				h.runRound(e)
 			}
 		}
 	}
@@ -782,12 +1101,14 @@ func TestVerifC18(t *testing.T) {
 		}
 		return
 	}
-	for _, p := range []int64{1000, 1500, 2000, 8000, 10000} {
+	for _, p := range []int64{1000, 1500, 2000, 5000, 8000, 10000} {
 		if !c18ExactAbs(p) {
 			t.Fatalf("c18: percent %d is not float-exact on this platform", p)
 		}
 	}
 	c18Enumerated(h)
+	c18EnumeratedPools(h)
+	c18EnumeratedStricterPool(h)
 	n := 4000
 	if vu.Thorough() {
 		n = 60000
